@@ -194,3 +194,34 @@ def rule_frame(ctx, R):
             R.inst(APPEND, "policy:default", {"flushes": fl})
             if not fl and b.term(other)["k"] != "unreachable":
                 R.finding(APPEND, "policy:default:no-flush", "a fsync policy arm does not flush the buffered writer", b.loc(other))
+
+
+
+def rule_flush_all_paths(ctx, R):
+    """a command that took effect is in the file when append_command returns Ok: every path from
+    the serialisation of the frame to a normal return passes a flush of the buffered writer (the
+    Err exits -- `?` on a failed write/flush/sync -- are excepted).  A flush that happens only on
+    some branch (e.g. only when the fsync interval has elapsed) leaves commands in process
+    memory, and a buffer that spills on its own ends the file in the middle of a frame."""
+    b = ctx.prog.need(APPEND)
+    ser = [i for i, t in b.calls() if callee(t) == "protocol::serializer::serialize_resp_frame"]
+    fl = {i for i, t in b.calls() if re.search(r"as std::io::Write>::flush$|BufWriter::<.*>::flush$", t["f"] or "")}
+    R.floor("flush_sites", len(fl))
+    # blocks that only lead to an Err return: regions of the Break edge of `?`
+    err_reg = set()
+    for i, t in b.calls():
+        if re.search(r"std::ops::Try>::branch$", t["f"] or ""):
+            rs = shared.result_switch(b, i) if False else None
+    for x, bb in enumerate(b.bbs):
+        t = bb["t"]
+        if t["k"] == "call" and re.search(r"FromResidual<.*>>::from_residual$", t["f"] or "") and t["d"]["l"] == 0:
+            err_reg |= cfg.bwd_dom_region(b, x) if hasattr(cfg, "bwd_dom_region") else {x}
+    exits = set(b.exits())
+    for k, i in enumerate(ser):
+        # search a path ser -> exit avoiding flush blocks and avoiding from_residual blocks
+        p_ = cfg.path_avoiding(b, [b.term(i)["t"]], exits, fl | err_reg)
+        R.inst(APPEND, "flush-on-every-ok-path#%d" % k, {"serialised_at": b.loc(i), "ok_path_without_flush": p_ is not None})
+        if p_ is not None:
+            R.finding(APPEND, "flush:not-on-every-path",
+                      "append_command can return Ok after serialising the command without flushing the buffered writer (a branch skips the flush): the command stays in process memory until some later write, and is lost -- or the file ends mid-frame -- if the server stops first",
+                      b.loc(i), witness=["bb%d %s" % (x, b.loc(x)) for x in p_][:8])
